@@ -1,12 +1,934 @@
-//! C20 - not built yet.
-use crate::run::Ctx;
-use serde_json::Value;
+//! C20 - the process-wide time-zone provider is thread-safe and survives failed calls.
+//!
+//! Oracle (metamorphic): the result of a convenience-API call must not depend on history or
+//! schedule, i.e. it must equal the result of the same call executed alone through the
+//! `_with_provider` core API against a fresh `FsTzdbProvider` (computed in the parent process,
+//! which never touches `TZ_PROVIDER` itself).
+//!
+//! * sub-check `program` (a): N in {2,4,8,16} threads x lists of calls over a small zone palette
+//!   (so threads collide on the same cold zones), optional sequential warm-up. The program is
+//!   run (1) single-threaded in generated global orders and (2) with real threads released by a
+//!   barrier, each run in a fresh child process (the cache is cold once per process).
+//! * sub-check `fault` (b): short histories with one or two failing calls (error kinds, injected
+//!   panic while holding the lock - same or second thread -, a call that panics inside the
+//!   provider, `Display` panicking) at every position, each in a fresh child process.
 
-pub fn run(_ctx: &mut Ctx) {
-    eprintln!("property C20 has no check yet");
+pub mod calls;
+pub mod child;
+
+use crate::run::*;
+use calls::*;
+use child::*;
+use proptest::prelude::*;
+use serde::{Deserialize, Serialize};
+use serde_json::{json, Value};
+use std::collections::BTreeSet;
+use std::sync::atomic::{AtomicBool, AtomicU64, Ordering as AO};
+
+// ------------------------------------------------------------------------------------------------
+// pools
+
+pub const ZONES: [&str; 52] = [
+    "America/New_York",
+    "America/Los_Angeles",
+    "America/Chicago",
+    "America/Denver",
+    "America/Sao_Paulo",
+    "America/St_Johns",
+    "America/Halifax",
+    "America/Mexico_City",
+    "America/Argentina/Buenos_Aires",
+    "America/Anchorage",
+    "America/Havana",
+    "America/Santiago",
+    "Europe/London",
+    "Europe/Paris",
+    "Europe/Berlin",
+    "Europe/Moscow",
+    "Europe/Lisbon",
+    "Europe/Dublin",
+    "Europe/Istanbul",
+    "Europe/Kyiv",
+    "Asia/Tokyo",
+    "Asia/Kolkata",
+    "Asia/Kathmandu",
+    "Asia/Tehran",
+    "Asia/Shanghai",
+    "Asia/Seoul",
+    "Asia/Dubai",
+    "Asia/Jerusalem",
+    "Asia/Gaza",
+    "Asia/Kabul",
+    "Asia/Yangon",
+    "Australia/Sydney",
+    "Australia/Lord_Howe",
+    "Australia/Adelaide",
+    "Australia/Perth",
+    "Australia/Eucla",
+    "Pacific/Auckland",
+    "Pacific/Chatham",
+    "Pacific/Honolulu",
+    "Pacific/Kiritimati",
+    "Pacific/Apia",
+    "Pacific/Fiji",
+    "Africa/Cairo",
+    "Africa/Casablanca",
+    "Africa/Johannesburg",
+    "Africa/Lagos",
+    "Atlantic/Azores",
+    "Antarctica/Troll",
+    "UTC",
+    "Etc/GMT+5",
+    "US/Pacific",
+    "Asia/Calcutta",
+];
+const BAD_ZONES: [&str; 6] = ["Mars/Olympus_Mons", "No/Such_Zone", "America/New_york", "Europe/Londonx", "America", "Asia/Tokyo_"];
+const OFFSET_ZONES: [&str; 5] = ["+05:30", "-08:00", "+00:00", "Z", "-03:30"];
+const DURS: [&str; 14] = [
+    "P1D", "PT1H", "P1M", "P1Y", "PT36H", "P1M15DT12H", "-P1D", "PT90M", "P2W", "PT0S", "P1Y2M3DT4H5M6S", "-P1M", "PT24H", "P40D",
+];
+/// durations that make the operation fail (out of range / malformed)
+const BAD_DURS: [&str; 4] = ["P300000Y", "-P300000Y", "P1", "1D"];
+
+fn zones_on_disk() -> Vec<String> {
+    ZONES.iter().filter(|z| std::path::Path::new("/usr/share/zoneinfo").join(z).is_file()).map(|z| z.to_string()).collect()
+}
+fn is_real_zone(z: &str) -> bool {
+    ZONES.contains(&z)
+}
+
+// ------------------------------------------------------------------------------------------------
+// generators
+
+fn t_modern() -> BoxedStrategy<T> {
+    ((-631_152_000i64..2_145_830_400), prop_oneof![Just(0u32), 0u32..1_000_000_000]).prop_map(|(s, n)| T { s, n }).boxed()
+}
+fn t_any() -> BoxedStrategy<T> {
+    crate::gen::boxed_union(vec![
+        (12, t_modern()),
+        (1, ((-8_640_000_000_000i64..8_640_000_000_000), 0u32..1_000_000_000).prop_map(|(s, n)| T { s, n }).boxed()),
+        (1, (0i64..3, prop::bool::ANY).prop_map(|(k, neg)| T { s: if neg { -8_640_000_000_000 + k } else { 8_640_000_000_000 - k }, n: 0 }).boxed()),
+    ])
+}
+
+/// a zone identifier: mostly from the palette verbatim; sometimes a case/truncation variant of a
+/// palette zone (unknown to a case-sensitive tzdb, but a sloppy cache key would serve it), an
+/// unknown name or a fixed offset
+fn zone_from(palette: &[String], good_only: bool) -> BoxedStrategy<String> {
+    let pal = proptest::sample::select(palette.to_vec());
+    if good_only {
+        return pal.boxed();
+    }
+    crate::gen::boxed_union(vec![
+        (40, pal.clone().boxed()),
+        (2, pal.clone().prop_map(|z| variant(&z, 'l')).boxed()),
+        (1, pal.clone().prop_map(|z| variant(&z, 'u')).boxed()),
+        (1, pal.clone().prop_map(|z| variant(&z, 't')).boxed()),
+        (1, pal.prop_map(|z| variant(&z, 'x')).boxed()),
+        (2, proptest::sample::select(BAD_ZONES.to_vec()).prop_map(String::from).boxed()),
+        (3, proptest::sample::select(OFFSET_ZONES.to_vec()).prop_map(String::from).boxed()),
+    ])
+}
+
+/// l: lower case, u: upper case, t: cut at the last '/', x: append a letter. A placeholder `#k`
+/// (palette slot k, resolved by `subst`) keeps the variant as a suffix `#k~v`.
+fn variant(z: &str, kind: char) -> String {
+    if z.starts_with('#') {
+        return format!("{z}~{kind}");
+    }
+    match kind {
+        'l' => z.to_ascii_lowercase(),
+        'u' => z.to_ascii_uppercase(),
+        't' => z.rsplit_once('/').map(|x| x.0.to_string()).unwrap_or_else(|| z.to_string()),
+        'x' => format!("{z}x"),
+        _ => z.to_string(),
+    }
+}
+
+/// replaces every placeholder `#k` / `#k~v` by (the variant of) palette[k mod len]
+fn subst(s: &str, pal: &[String]) -> String {
+    let b: Vec<char> = s.chars().collect();
+    let mut out = String::with_capacity(s.len() + 16);
+    let mut i = 0;
+    while i < b.len() {
+        if b[i] == '#' && i + 1 < b.len() && b[i + 1].is_ascii_digit() && !pal.is_empty() {
+            let z = &pal[(b[i + 1] as usize - '0' as usize) % pal.len()];
+            if i + 3 < b.len() && b[i + 2] == '~' {
+                out.push_str(&variant(z, b[i + 3]));
+                i += 4;
+            } else {
+                out.push_str(z);
+                i += 2;
+            }
+        } else {
+            out.push(b[i]);
+            i += 1;
+        }
+    }
+    out
+}
+
+fn subst_call(c: &Call, pal: &[String]) -> Call {
+    let f = |s: &String| subst(s, pal);
+    match c {
+        Call::ZdtFromStr { s, dis, off, then } => Call::ZdtFromStr { s: f(s), dis: *dis, off: *off, then: *then },
+        Call::ZdtGet { t, zone, acc } => Call::ZdtGet { t: *t, zone: f(zone), acc: *acc },
+        Call::ZdtAdd { t, zone, dur, sub, reject } => Call::ZdtAdd { t: *t, zone: f(zone), dur: dur.clone(), sub: *sub, reject: *reject },
+        Call::ZdtDiff { t, zone, t2, zone2, largest, since } => Call::ZdtDiff { t: *t, zone: f(zone), t2: *t2, zone2: f(zone2), largest: *largest, since: *since },
+        Call::ZdtWithTime { t, zone, sec } => Call::ZdtWithTime { t: *t, zone: f(zone), sec: *sec },
+        Call::RelTo { rel } => Call::RelTo { rel: f(rel) },
+        Call::DurRound { dur, rel, largest, smallest } => Call::DurRound { dur: dur.clone(), rel: f(rel), largest: *largest, smallest: *smallest },
+        Call::DurTotal { dur, rel, unit } => Call::DurTotal { dur: dur.clone(), rel: f(rel), unit: *unit },
+        Call::DurCompare { a, b, rel } => Call::DurCompare { a: a.clone(), b: b.clone(), rel: f(rel) },
+        Call::InstantStr { t, zone } => Call::InstantStr { t: *t, zone: zone.as_ref().map(f) },
+        Call::PdtToZdt { y, mo, d, h, mi, sec, zone, dis } => Call::PdtToZdt { y: *y, mo: *mo, d: *d, h: *h, mi: *mi, sec: *sec, zone: f(zone), dis: *dis },
+        Call::InjectPanic => Call::InjectPanic,
+    }
+}
+
+/// "YYYY-MM-DDTHH:MM:SS<offset>[zone]<calendar>" plus malformed relatives
+fn zoned_string(palette: &[String], good_only: bool) -> BoxedStrategy<String> {
+    let offs: Vec<&'static str> = if good_only { vec!["", "", "Z"] } else { vec!["", "", "", "Z", "Z", "+00:00", "-05:00", "+01:00", "+09:00"] };
+    let cals: Vec<&'static str> = if good_only { vec![""] } else { vec!["", "", "", "", "[u-ca=iso8601]", "[u-ca=gregory]", "[u-ca=hebrew]"] };
+    let well = (
+        (1950i32..2038, 1u8..=12, 1u8..=28),
+        (0u8..24, 0u8..60, 0u8..60),
+        proptest::sample::select(offs),
+        zone_from(palette, good_only),
+        proptest::sample::select(cals),
+    )
+        .prop_map(|((y, mo, d), (h, mi, s), off, zone, cal)| format!("{y:04}-{mo:02}-{d:02}T{h:02}:{mi:02}:{s:02}{off}[{zone}]{cal}"));
+    if good_only {
+        return well.boxed();
+    }
+    let pal0 = palette[0].clone();
+    crate::gen::boxed_union(vec![
+        (30, well.boxed()),
+        (
+            3,
+            proptest::sample::select(vec![
+                "garbage".to_string(),
+                String::new(),
+                format!("2020-13-45T99:00[{pal0}]"),
+                format!("2020-01-01T00:00[{pal0}"),
+                "2020-01-01T00:00".to_string(),
+                "2020-02-30".to_string(),
+                format!("2020-01-01[{pal0}]"),
+                format!("+275760-09-13T00:00:01Z[{pal0}]"),
+            ])
+            .boxed(),
+        ),
+    ])
+}
+
+fn dur_string(good_only: bool) -> BoxedStrategy<String> {
+    let good = proptest::sample::select(DURS.to_vec()).prop_map(String::from);
+    if good_only {
+        return good.boxed();
+    }
+    crate::gen::boxed_union(vec![(12, good.boxed()), (1, proptest::sample::select(BAD_DURS.to_vec()).prop_map(String::from).boxed())])
+}
+
+fn acc() -> BoxedStrategy<Acc> {
+    proptest::sample::select(ACCS.to_vec()).boxed()
+}
+/// accessors that succeed on a known zone
+fn acc_good() -> BoxedStrategy<Acc> {
+    proptest::sample::select(ACCS.iter().copied().filter(|a| !matches!(a, Acc::TransitionNext | Acc::TransitionPrev)).collect::<Vec<_>>()).boxed()
+}
+
+/// one call over the palette; `good_only`: drawn so that it normally succeeds (history bases)
+fn call_strategy(palette: Vec<String>, good_only: bool) -> BoxedStrategy<Call> {
+    let p = &palette;
+    let t = if good_only { t_modern() } else { t_any() };
+    let a = if good_only { acc_good() } else { acc() };
+    let unit_opt = |lo: u8, hi: u8| prop_oneof![2 => Just(None), 3 => (lo..=hi).prop_map(Some)];
+    crate::gen::boxed_union(vec![
+        (6, (t.clone(), zone_from(p, good_only), a.clone()).prop_map(|(t, zone, acc)| Call::ZdtGet { t, zone, acc }).boxed()),
+        (
+            4,
+            (zoned_string(p, good_only), if good_only { Just(0u8).boxed() } else { (0u8..4).boxed() }, if good_only { Just(0u8).boxed() } else { (0u8..4).boxed() }, a)
+                .prop_map(|(s, dis, off, then)| Call::ZdtFromStr { s, dis, off, then })
+                .boxed(),
+        ),
+        (
+            3,
+            (t.clone(), zone_from(p, good_only), dur_string(good_only), prop::bool::ANY, if good_only { Just(false).boxed() } else { prop::bool::ANY.boxed() })
+                .prop_map(|(t, zone, dur, sub, reject)| Call::ZdtAdd { t, zone, dur, sub, reject })
+                .boxed(),
+        ),
+        (
+            3,
+            (t_modern(), zone_from(p, good_only), t_modern(), zone_from(p, good_only), unit_opt(0, 9), prop::bool::ANY)
+                .prop_map(|(t, zone, t2, zone2, largest, since)| Call::ZdtDiff { t, zone, t2, zone2, largest, since })
+                .boxed(),
+        ),
+        (1, (t.clone(), zone_from(p, good_only), 0u32..86400).prop_map(|(t, zone, sec)| Call::ZdtWithTime { t, zone, sec }).boxed()),
+        (1, zoned_string(p, good_only).prop_map(|rel| Call::RelTo { rel }).boxed()),
+        (
+            2,
+            (dur_string(good_only), zoned_string(p, good_only), unit_opt(0, 4), unit_opt(3, 6))
+                .prop_map(|(dur, rel, largest, smallest)| {
+                    // keep the options legal unless both are absent (which is an error: a failing call)
+                    let (largest, smallest) = match (largest, smallest) {
+                        (Some(l), Some(s)) if l > s => (Some(s), Some(s)),
+                        x => x,
+                    };
+                    Call::DurRound { dur, rel, largest, smallest }
+                })
+                .boxed(),
+        ),
+        (2, (dur_string(good_only), zoned_string(p, good_only), 0u8..=6).prop_map(|(dur, rel, unit)| Call::DurTotal { dur, rel, unit }).boxed()),
+        (1, (dur_string(good_only), dur_string(good_only), zoned_string(p, good_only)).prop_map(|(a, b, rel)| Call::DurCompare { a, b, rel }).boxed()),
+        (2, (t, prop_oneof![1 => Just(None), 6 => zone_from(p, good_only).prop_map(Some)]).prop_map(|(t, zone)| Call::InstantStr { t, zone }).boxed()),
+        (
+            2,
+            ((1950i32..2038, 1u8..=12, 1u8..=28), (0u8..24, 0u8..60, 0u8..60), zone_from(p, good_only), if good_only { Just(0u8).boxed() } else { (0u8..4).boxed() })
+                .prop_map(|((y, mo, d), (h, mi, sec), zone, dis)| Call::PdtToZdt { y, mo, d, h, mi, sec, zone, dis })
+                .boxed(),
+        ),
+    ])
+}
+
+fn palette(pool: Vec<String>, lo: usize, hi: usize) -> BoxedStrategy<Vec<String>> {
+    proptest::sample::subsequence(pool, lo..=hi).prop_shuffle().boxed()
+}
+
+// ------------------------------------------------------------------------------------------------
+// shared evaluation helpers
+
+/// children spawned by this process (evidence)
+static CHILDREN: AtomicU64 = AtomicU64::new(0);
+/// calls inside programs: total / not executed because they panic when run alone
+static PROGRAM_CALLS: AtomicU64 = AtomicU64::new(0);
+static PROGRAM_CALLS_NOT_RUN: AtomicU64 = AtomicU64::new(0);
+/// a deterministic hang was confirmed: later evaluations are not executed (each would block for
+/// two watchdog periods; shrinking would take hours)
+static HANG_CONFIRMED: AtomicBool = AtomicBool::new(false);
+// shrink budget: evaluations of `program` still allowed after its first failure in this process
+thread_local! {
+    // per worker lane, so that every lane can shrink its own failure
+    static FAIL_SEEN: std::cell::Cell<bool> = const { std::cell::Cell::new(false) };
+    static EVALS_AFTER_FAIL: std::cell::Cell<u64> = const { std::cell::Cell::new(0) };
+}
+static SHRINK_BUDGET: AtomicU64 = AtomicU64::new(u64::MAX);
+
+/// outcome of a worker that could be started
+enum Ran {
+    Done(JobResult),
+    Died(String),
+    Timeout,
+}
+
+fn spawn(job: &Job) -> Ran {
+    CHILDREN.fetch_add(1, AO::Relaxed);
+    beat_start(); // the engine watchdog is per case; a case here is several bounded child runs
+    match run_in_child(job) {
+        ChildOutcome::Infra(why) => {
+            println!("INCONCLUSIVE property=C20 cannot run a worker process: {why}");
+            remove_job_dir();
+            std::process::exit(2);
+        }
+        ChildOutcome::Done(r) => Ran::Done(r),
+        ChildOutcome::Died(w) => Ran::Died(w),
+        ChildOutcome::Timeout => Ran::Timeout,
+    }
+}
+
+fn inconclusive(what: &str) -> ! {
+    println!(
+        "INCONCLUSIVE property=C20 {what}: a worker process did not finish within {} s and the hang did not reproduce in the single-threaded schedule (liveness is only observable as a bounded wait)",
+        timeout_s()
+    );
+    remove_job_dir();
     std::process::exit(2);
 }
 
-pub fn replay(_ctx: &mut Ctx, _sub: &str, _case: &Value) -> bool {
-    false
+struct Mismatch {
+    lock: bool,
+    at: String,
+    expected: String,
+    actual: String,
 }
+
+/// all positions where actual differs from expected
+fn mismatches(tag: &str, exp: &[Vec<String>], act: &[Vec<String>], steps: &[Vec<Step>]) -> Vec<Mismatch> {
+    let mut out = vec![];
+    for (ti, (e, a)) in exp.iter().zip(act.iter()).enumerate() {
+        if e.len() != a.len() {
+            out.push(Mismatch { lock: false, at: format!("{tag}[{ti}]"), expected: format!("{} results", e.len()), actual: format!("{} results", a.len()) });
+            continue;
+        }
+        for (ci, (x, y)) in e.iter().zip(a.iter()).enumerate() {
+            if steps[ti][ci].skip {
+                continue;
+            }
+            if !same(x, y) {
+                out.push(Mismatch { lock: is_lock_error(y), at: format!("{tag}[{ti}][{ci}] {:?}", steps[ti][ci].call), expected: x.clone(), actual: y.clone() });
+            }
+        }
+    }
+    if exp.len() != act.len() {
+        out.push(Mismatch { lock: false, at: tag.to_string(), expected: format!("{} lists", exp.len()), actual: format!("{} lists", act.len()) });
+    }
+    out
+}
+
+// ------------------------------------------------------------------------------------------------
+// (a) programs
+
+#[derive(Serialize, Deserialize, Debug, Clone)]
+pub enum Order {
+    /// interleaving: at step k the thread picks[k mod len] mod (number of unfinished threads),
+    /// counted among the unfinished ones, runs its next call
+    Picks(Vec<u8>),
+    /// whole threads one after the other, starting with thread r (rotations of "who touches a zone first")
+    Rotation(u8),
+}
+
+#[derive(Serialize, Deserialize, Debug, Clone)]
+pub struct ProgramCase {
+    pub warm: Vec<Call>,
+    pub threads: Vec<Vec<Call>>,
+    pub orders: Vec<Order>,
+}
+
+fn global_order(lens: &[usize], o: &Order) -> Vec<u16> {
+    let n = lens.len();
+    let mut out = vec![];
+    match o {
+        Order::Rotation(r) => {
+            for k in 0..n {
+                let t = (k + *r as usize) % n.max(1);
+                out.extend(std::iter::repeat(t as u16).take(lens[t]));
+            }
+        }
+        Order::Picks(p) => {
+            let mut left: Vec<usize> = lens.to_vec();
+            let total: usize = lens.iter().sum();
+            for k in 0..total {
+                let alive: Vec<usize> = (0..n).filter(|&t| left[t] > 0).collect();
+                let pick = if p.is_empty() { 0 } else { p[k % p.len()] as usize };
+                let t = alive[pick % alive.len()];
+                left[t] -= 1;
+                out.push(t as u16);
+            }
+        }
+    }
+    out
+}
+
+pub struct ProgramSub;
+
+impl SubCheck for ProgramSub {
+    type Case = ProgramCase;
+    fn name(&self) -> &'static str {
+        "program"
+    }
+    fn eval(&self, c: &ProgramCase) -> Outcome {
+        if HANG_CONFIRMED.load(AO::SeqCst) {
+            let mut o = Outcome::pass().class("not-run:after-confirmed-hang");
+            o.unjudged = true;
+            return o;
+        }
+        let spent = if FAIL_SEEN.with(|f| f.get()) { EVALS_AFTER_FAIL.with(|n| n.replace(n.get() + 1)) } else { 0 };
+        if spent >= SHRINK_BUDGET.load(AO::SeqCst) {
+            let mut o = Outcome::pass().class("not-run:shrink-budget-exhausted");
+            o.unjudged = true;
+            return o;
+        }
+        let mut o = eval_program(c);
+        if o.failed() {
+            FAIL_SEEN.with(|f| f.set(true));
+            o = o.class("FAILED");
+        }
+        o
+    }
+}
+
+fn eval_program(c: &ProgramCase) -> Outcome {
+    let mut o = Outcome::pass();
+    if c.threads.is_empty() || c.threads.len() > 64 {
+        return o.class("degenerate:no-threads");
+    }
+    // ---- the oracle: every call alone against a fresh provider
+    let mk = |call: &Call| -> (Step, String) {
+        let e = exec_isolated(call);
+        // a call that panics when run alone is another property's defect (C03/C13); executing it
+        // through a wrapper would poison the lock as a side effect, so it is not executed here
+        // (the fault histories do execute such calls, as faults)
+        let skip = e.starts_with("Panic(") || matches!(call, Call::InjectPanic);
+        (Step { call: call.clone(), thr: false, skip }, e)
+    };
+    let (warm_steps, warm_exp): (Vec<Step>, Vec<String>) = c.warm.iter().map(mk).unzip();
+    let mut steps: Vec<Vec<Step>> = vec![];
+    let mut exp: Vec<Vec<String>> = vec![];
+    for t in &c.threads {
+        let (s, e): (Vec<Step>, Vec<String>) = t.iter().map(mk).unzip();
+        steps.push(s);
+        exp.push(e);
+    }
+    PROGRAM_CALLS.fetch_add((steps.iter().map(|t| t.len()).sum::<usize>() + warm_steps.len()) as u64, AO::Relaxed);
+    PROGRAM_CALLS_NOT_RUN.fetch_add(steps.iter().flatten().chain(warm_steps.iter()).filter(|s| s.skip).count() as u64, AO::Relaxed);
+    // ---- classes and the non-triviality rule
+    let n_threads = c.threads.len();
+    o = o.class(match n_threads {
+        1 => "threads=1",
+        2 => "threads=2",
+        3..=4 => "threads=3-4",
+        5..=8 => "threads=5-8",
+        _ => "threads=9-16",
+    });
+    let warm_zones: BTreeSet<String> = c.warm.iter().flat_map(|x| x.zones()).collect();
+    let per_thread: Vec<BTreeSet<String>> = c.threads.iter().map(|t| t.iter().flat_map(|x| x.zones()).filter(|z| is_real_zone(z)).collect()).collect();
+    let mut all: BTreeSet<&String> = BTreeSet::new();
+    per_thread.iter().for_each(|s| all.extend(s.iter()));
+    let shared_cold = all.iter().filter(|z| !warm_zones.contains(**z) && per_thread.iter().filter(|s| s.contains(**z)).count() >= 2).count();
+    let shared_warm = all.iter().filter(|z| warm_zones.contains(**z) && per_thread.iter().filter(|s| s.contains(**z)).count() >= 2).count();
+    let firsts: Vec<Option<String>> = c.threads.iter().map(|t| t.first().and_then(|x| x.zones().into_iter().find(|z| is_real_zone(z) && !warm_zones.contains(z)))).collect();
+    let same_first = firsts.iter().flatten().any(|z| firsts.iter().flatten().filter(|y| *y == z).count() >= 2);
+    if shared_cold > 0 {
+        o = o.class("cold-zone-shared-by>=2-threads");
+    }
+    if shared_warm > 0 {
+        o = o.class("warm-zone-shared-by>=2-threads");
+    }
+    if same_first {
+        o = o.class("same-cold-zone-is-first-call-of>=2-threads");
+    }
+    if !c.warm.is_empty() {
+        o = o.class("has-warm-up");
+    }
+    let flat_exp = || exp.iter().flatten().chain(warm_exp.iter());
+    if flat_exp().any(|e| err_kind(e).is_some() || e.contains(" -> Err(")) {
+        o = o.class("has-failing-call");
+    }
+    if steps.iter().flatten().chain(warm_steps.iter()).any(|s| s.skip) {
+        o = o.class("has-call-not-run(panics-alone)");
+    }
+    if c.threads.iter().flatten().flat_map(|x| x.zones()).any(|z| !is_real_zone(&z) && tz_of(&z).map(|t| matches!(t, temporal_rs::TimeZone::IanaIdentifier(_))).unwrap_or(false)) {
+        o = o.class("has-unknown-or-miscased-zone");
+    }
+    o = o.nontrivial(n_threads >= 2 && shared_cold > 0);
+
+    let lens: Vec<usize> = c.threads.iter().map(|t| t.len()).collect();
+    let mut all_exp = vec![warm_exp.clone()];
+    all_exp.extend(exp.iter().cloned());
+    let mut all_steps = vec![warm_steps.clone()];
+    all_steps.extend(steps.iter().cloned());
+    let judge = |o: Outcome, mode: &str, r: &JobResult| -> Outcome {
+        let mut act = vec![r.warm.clone()];
+        act.extend(r.threads.iter().cloned());
+        let mm = mismatches(mode, &all_exp, &act, &all_steps);
+        // report a wrong value before a lock error (a lock error may be the consequence of a panic)
+        if let Some(m) = mm.iter().find(|m| !m.lock).or(mm.first()) {
+            let what = if m.lock { "lock-error" } else { "result-differs" };
+            return o.fail(
+                format!("C20/program/{mode}/{what}"),
+                format!("{} (the call alone, fresh provider)", m.expected),
+                format!("{} at {} ({} of {} results differ)", m.actual, m.at, mm.len(), all_exp.iter().map(|v| v.len()).sum::<usize>()),
+            );
+        }
+        o
+    };
+    // ---- (1) single-threaded replays in generated global orders
+    for ord in &c.orders {
+        let job = Job { warm: warm_steps.clone(), threads: steps.clone(), order: Some(global_order(&lens, ord)) };
+        match spawn(&job) {
+            Ran::Done(r) => {
+                o = judge(o, "seq", &r);
+            }
+            Ran::Died(why) => return o.fail("C20/program/seq/child-died", "worker finishes", why),
+            Ran::Timeout => match spawn(&job) {
+                Ran::Timeout => {
+                    HANG_CONFIRMED.store(true, AO::SeqCst);
+                    return o.fail(
+                        "C20/program/seq/hang-deterministic",
+                        "single-threaded schedule finishes",
+                        format!("worker killed after {} s, twice in a row, in the same single-threaded schedule {:?}", timeout_s(), ord),
+                    );
+                }
+                _ => inconclusive("single-threaded replay hung once, then finished"),
+            },
+        }
+        if o.failed() {
+            return o;
+        }
+    }
+    // ---- (2) real threads
+    let job = Job { warm: warm_steps.clone(), threads: steps.clone(), order: None };
+    match spawn(&job) {
+        Ran::Done(r) => o = judge(o, "conc", &r),
+        Ran::Died(why) => return o.fail("C20/program/conc/child-died", "worker finishes", why),
+        Ran::Timeout => inconclusive("concurrent program"),
+    }
+    o
+}
+
+/// No `prop_flat_map`: calls are generated over palette *slots* `#0..#5` and resolved against the
+/// generated palette in the final `prop_map`, so proptest can shrink every part independently
+/// (drop calls, lower the thread count, drop palette zones).
+fn program_strategy(pool: Vec<String>, n_orders: usize, total_lo: usize, total_hi: usize) -> BoxedStrategy<ProgramCase> {
+    let slots: Vec<String> = (0..6).map(|k| format!("#{k}")).collect();
+    let call = call_strategy(slots.clone(), false);
+    let first = call_strategy(vec![slots[0].clone()], true);
+    let orders = prop::collection::vec(
+        prop_oneof![
+            2 => prop::collection::vec(any::<u8>(), 4..24).prop_map(Order::Picks),
+            1 => (0u8..16).prop_map(Order::Rotation),
+        ],
+        n_orders..=n_orders,
+    );
+    (
+        (palette(pool, 2, 6), 0usize..4, total_lo..=total_hi),
+        prop_oneof![1 => Just(vec![]).boxed(), 1 => prop::collection::vec(call.clone(), 1..6).boxed()],
+        prop::collection::vec(prop::collection::vec(call, 1..=100), 16..=16),
+        // 0: nothing; 1: all threads start with the same call on a cold zone; 2: same zone, own call
+        (0u8..3, first.clone(), prop::collection::vec(first, 16..=16)),
+        orders,
+    )
+        .prop_map(|((pal, nsel, total), warm, lists, (head_mode, head, heads), orders)| {
+            let n = [2usize, 4, 8, 16][nsel];
+            let per = (total / n).max(1);
+            let mut threads: Vec<Vec<Call>> = lists.into_iter().take(n).map(|mut l| {
+                l.truncate(per);
+                l
+            }).collect();
+            match head_mode {
+                1 => threads.iter_mut().for_each(|t| t.insert(0, head.clone())),
+                2 => threads.iter_mut().zip(heads).for_each(|(t, h)| t.insert(0, h)),
+                _ => {}
+            }
+            ProgramCase {
+                warm: warm.iter().map(|c| subst_call(c, &pal)).collect(),
+                threads: threads.iter().map(|t| t.iter().map(|c| subst_call(c, &pal)).collect()).collect(),
+                orders,
+            }
+        })
+        .boxed()
+}
+
+// ------------------------------------------------------------------------------------------------
+// (b) fault histories
+
+#[derive(Serialize, Deserialize, Debug, Clone)]
+pub struct HStep {
+    pub call: Call,
+    /// run on a second thread (spawned, joined)
+    pub thr: bool,
+}
+#[derive(Serialize, Deserialize, Debug, Clone)]
+pub struct HistoryCase {
+    pub steps: Vec<HStep>,
+}
+
+/// `Api` whose every provider-backed method answers like a wrapper that finds the lock poisoned:
+/// predicts, per call, the result under the defect "a panic while the lock is held poisons
+/// TZ_PROVIDER" (calls that fail before reaching a wrapper keep their own error).
+mod poisoned {
+    use super::calls::*;
+    use std::cmp::Ordering;
+    use temporal_rs::options::*;
+    use temporal_rs::primitive::FiniteF64;
+    use temporal_rs::provider::TransitionDirection;
+    use temporal_rs::*;
+    use tinystr::TinyAsciiStr;
+    pub struct Poisoned;
+    fn e<T>() -> TemporalResult<T> {
+        Err(TemporalError::general(LOCK_MSG))
+    }
+    #[rustfmt::skip]
+    impl Api for Poisoned {
+        fn from_str(&self, _: &str, _: Disambiguation, _: OffsetDisambiguation) -> TemporalResult<ZonedDateTime> { e() }
+        fn year(&self, _: &ZonedDateTime) -> TemporalResult<i32> { e() }
+        fn month(&self, _: &ZonedDateTime) -> TemporalResult<u8> { e() }
+        fn month_code(&self, _: &ZonedDateTime) -> TemporalResult<MonthCode> { e() }
+        fn day(&self, _: &ZonedDateTime) -> TemporalResult<u8> { e() }
+        fn hour(&self, _: &ZonedDateTime) -> TemporalResult<u8> { e() }
+        fn minute(&self, _: &ZonedDateTime) -> TemporalResult<u8> { e() }
+        fn second(&self, _: &ZonedDateTime) -> TemporalResult<u8> { e() }
+        fn millisecond(&self, _: &ZonedDateTime) -> TemporalResult<u16> { e() }
+        fn offset(&self, _: &ZonedDateTime) -> TemporalResult<String> { e() }
+        fn offset_nanoseconds(&self, _: &ZonedDateTime) -> TemporalResult<i64> { e() }
+        fn era(&self, _: &ZonedDateTime) -> TemporalResult<Option<TinyAsciiStr<16>>> { e() }
+        fn era_year(&self, _: &ZonedDateTime) -> TemporalResult<Option<i32>> { e() }
+        fn day_of_week(&self, _: &ZonedDateTime) -> TemporalResult<u16> { e() }
+        fn day_of_year(&self, _: &ZonedDateTime) -> TemporalResult<u16> { e() }
+        fn week_of_year(&self, _: &ZonedDateTime) -> TemporalResult<Option<u16>> { e() }
+        fn year_of_week(&self, _: &ZonedDateTime) -> TemporalResult<Option<i32>> { e() }
+        fn days_in_week(&self, _: &ZonedDateTime) -> TemporalResult<u16> { e() }
+        fn days_in_month(&self, _: &ZonedDateTime) -> TemporalResult<u16> { e() }
+        fn days_in_year(&self, _: &ZonedDateTime) -> TemporalResult<u16> { e() }
+        fn months_in_year(&self, _: &ZonedDateTime) -> TemporalResult<u16> { e() }
+        fn in_leap_year(&self, _: &ZonedDateTime) -> TemporalResult<bool> { e() }
+        fn hours_in_day(&self, _: &ZonedDateTime) -> TemporalResult<u8> { e() }
+        fn transition(&self, _: &ZonedDateTime, _: TransitionDirection) -> TemporalResult<Option<ZonedDateTime>> { e() }
+        fn start_of_day(&self, _: &ZonedDateTime) -> TemporalResult<ZonedDateTime> { e() }
+        fn to_plain_date(&self, _: &ZonedDateTime) -> TemporalResult<PlainDate> { e() }
+        fn to_plain_time(&self, _: &ZonedDateTime) -> TemporalResult<PlainTime> { e() }
+        fn to_plain_datetime(&self, _: &ZonedDateTime) -> TemporalResult<PlainDateTime> { e() }
+        fn ixdtf(&self, _: &ZonedDateTime) -> TemporalResult<String> { e() }
+        fn display(&self, _: &ZonedDateTime) -> Result<String, String> { Err(DISPLAY_POISON.into()) }
+        fn with_plain_time(&self, _: &ZonedDateTime, _: PlainTime) -> TemporalResult<ZonedDateTime> { e() }
+        fn add(&self, _: &ZonedDateTime, _: &Duration, _: Option<ArithmeticOverflow>) -> TemporalResult<ZonedDateTime> { e() }
+        fn subtract(&self, _: &ZonedDateTime, _: &Duration, _: Option<ArithmeticOverflow>) -> TemporalResult<ZonedDateTime> { e() }
+        fn since(&self, _: &ZonedDateTime, _: &ZonedDateTime, _: DifferenceSettings) -> TemporalResult<Duration> { e() }
+        fn until(&self, _: &ZonedDateTime, _: &ZonedDateTime, _: DifferenceSettings) -> TemporalResult<Duration> { e() }
+        fn relative_to(&self, _: &str) -> TemporalResult<RelativeTo> { e() }
+        fn dur_round(&self, _: &Duration, _: RoundingOptions, _: Option<RelativeTo>) -> TemporalResult<Duration> { e() }
+        fn dur_total(&self, _: &Duration, _: Unit, _: Option<RelativeTo>) -> TemporalResult<FiniteF64> { e() }
+        fn dur_compare(&self, _: &Duration, _: &Duration, _: Option<RelativeTo>) -> TemporalResult<Ordering> { e() }
+        fn instant_str(&self, _: &Instant, _: Option<&TimeZone>) -> TemporalResult<String> { e() }
+        fn pdt_to_zdt(&self, _: &PlainDateTime, _: &TimeZone, _: Disambiguation) -> TemporalResult<ZonedDateTime> { e() }
+    }
+    pub const DISPLAY_POISON: &str = "<Display panics on the lock error>";
+}
+
+/// does `actual` equal what the poisoned-lock defect predicts for this call?
+fn matches_poison_prediction(call: &Call, actual: &str) -> bool {
+    if let Call::InjectPanic = call {
+        return actual == INJECTED;
+    }
+    let predicted = exec(&poisoned::Poisoned, call);
+    if predicted.contains(poisoned::DISPLAY_POISON) {
+        // Display: `expect` in src/builtins/compiled/zoneddatetime.rs on the lock error
+        let prefix = predicted.split("display!").next().unwrap_or("");
+        return actual.starts_with(prefix)
+            && actual[prefix.len()..].starts_with("display!panic@")
+            && actual[prefix.len()..].split(": ").next().is_some_and(|loc| loc.contains("src/builtins/compiled/zoneddatetime.rs:"))
+            && actual.contains("A valid ZonedDateTime string with default options")
+            && actual.contains(LOCK_MSG);
+    }
+    predicted == actual
+}
+
+pub struct FaultSub;
+
+impl SubCheck for FaultSub {
+    type Case = HistoryCase;
+    fn name(&self) -> &'static str {
+        "fault"
+    }
+    fn eval(&self, c: &HistoryCase) -> Outcome {
+        let mut o = Outcome::pass();
+        if HANG_CONFIRMED.load(AO::SeqCst) {
+            o = o.class("not-run:after-confirmed-hang");
+            o.unjudged = true;
+            return o;
+        }
+        let exp: Vec<String> = c.steps.iter().map(|s| exec_isolated(&s.call)).collect();
+        let steps: Vec<Step> = c.steps.iter().map(|s| Step { call: s.call.clone(), thr: s.thr, skip: false }).collect();
+        // ---- classes: which kinds of failing calls, where
+        let failing: Vec<usize> = (0..exp.len()).filter(|&i| is_failure(&exp[i]) || exp[i].contains(" -> Err(")).collect();
+        let holds_lock_panic: Vec<usize> = (0..exp.len()).filter(|&i| matches!(c.steps[i].call, Call::InjectPanic) || exp[i].starts_with("Panic(")).collect();
+        for &i in &failing {
+            o = o.class(match (&c.steps[i].call, c.steps[i].thr) {
+                (Call::InjectPanic, false) => "fault:injected-panic-holding-lock",
+                (Call::InjectPanic, true) => "fault:injected-panic-holding-lock(second-thread)",
+                _ if exp[i].starts_with("Panic(") => "fault:call-panics-inside-provider",
+                _ if exp[i].contains("display!") => "fault:display-panics",
+                _ => match err_kind(&exp[i]).or_else(|| exp[i].split(" -> ").nth(1).and_then(err_kind)) {
+                    Some("Range") => "fault:RangeError",
+                    Some("Generic") => "fault:GenericError",
+                    Some("Syntax") => "fault:SyntaxError",
+                    Some("Type") => "fault:TypeError",
+                    Some("Assert") => "fault:AssertError",
+                    _ => "fault:other",
+                },
+            });
+        }
+        o = o.class(match failing.len() {
+            0 => "failing-calls=0",
+            1 => "failing-calls=1",
+            _ => "failing-calls>=2",
+        });
+        let good_after_fault = failing.first().map(|&f| (f + 1..exp.len()).any(|j| !failing.contains(&j))).unwrap_or(false);
+        if good_after_fault {
+            o = o.class("success-expected-after-failing-call");
+        }
+        o = o.nontrivial(good_after_fault);
+
+        // ---- run the history in a fresh process (single thread + optional helper threads)
+        let job = Job { warm: vec![], threads: vec![steps.clone()], order: Some(vec![0; steps.len()]) };
+        let r = match spawn(&job) {
+            Ran::Done(r) => r,
+            Ran::Died(why) => return o.fail("C20/fault/child-died", "worker finishes", why),
+            Ran::Timeout => match spawn(&job) {
+                Ran::Timeout => {
+                    HANG_CONFIRMED.store(true, AO::SeqCst);
+                    return o.fail("C20/fault/hang-deterministic", "history finishes", format!("worker killed after {} s, twice in a row", timeout_s()));
+                }
+                _ => inconclusive("fault history hung once, then finished"),
+            },
+        };
+        let act = r.threads.first().cloned().unwrap_or_default();
+        let mm = mismatches("history", &[exp.clone()], &[act.clone()], &[steps.clone()]);
+        if mm.is_empty() {
+            return o;
+        }
+        // ---- defect model: poisoned lock. Every differing result must (1) come after a step that
+        // panicked while holding the lock and (2) be exactly what the poisoned wrappers produce.
+        let first_poison = holds_lock_panic.iter().copied().find(|&i| act.get(i).map(|a| a == INJECTED || a.starts_with("Panic(")).unwrap_or(false));
+        if act.len() == exp.len() {
+            if let Some(p) = first_poison {
+                let explained = (0..exp.len()).filter(|&j| !same(&exp[j], &act[j])).all(|j| j > p && matches_poison_prediction(&c.steps[j].call, &act[j]));
+                if explained {
+                    let origin = if matches!(c.steps[p].call, Call::InjectPanic) { "injected-panic" } else { "provider-panic" };
+                    let m = &mm[0];
+                    return o.fail(
+                        format!("C20/fault/poisoned-after-{origin}: later calls return Err(Generic:{LOCK_MSG})"),
+                        format!("{} (the call alone, fresh provider)", m.expected),
+                        format!("{} at {} ({} results after the panic at step {} differ, all equal to the poisoned-lock prediction)", m.actual, m.at, mm.len(), p),
+                    );
+                }
+            }
+        }
+        let m = mm.iter().find(|m| !m.lock).unwrap_or(&mm[0]);
+        let what = if m.lock { "lock-error" } else { "result-differs" };
+        o.fail(
+            format!("C20/fault/{what}"),
+            format!("{} (the call alone, fresh provider)", m.expected),
+            format!("{} at {} ({} results differ)", m.actual, m.at, mm.len()),
+        )
+    }
+}
+
+/// the failing-call kinds that are enumerated (label, step)
+fn fault_kinds(base_zone: &str) -> Vec<(&'static str, HStep)> {
+    let t0 = T { s: 1_590_000_000, n: 0 };
+    let h = |call: Call| HStep { call, thr: false };
+    vec![
+        ("unknown-zone-in-string", h(Call::ZdtFromStr { s: "2020-06-01T12:00:00[Mars/Olympus_Mons]".into(), dis: 0, off: 0, then: Acc::Hour })),
+        ("unknown-zone-value", h(Call::ZdtGet { t: t0, zone: "No/Such_Zone".into(), acc: Acc::Hour })),
+        ("miscased-known-zone", h(Call::ZdtGet { t: t0, zone: base_zone.to_ascii_lowercase(), acc: Acc::Offset })),
+        ("truncated-known-zone", h(Call::InstantStr { t: t0, zone: Some(base_zone.rsplit_once('/').map(|x| x.0).unwrap_or("Nowhere").to_string()) })),
+        ("out-of-range-result", h(Call::ZdtAdd { t: T { s: 8_640_000_000_000 - 1, n: 0 }, zone: base_zone.into(), dur: "P1D".into(), sub: false, reject: false })),
+        ("out-of-range-instant", h(Call::ZdtAdd { t: T { s: 8_640_000_000_000 - 1, n: 0 }, zone: base_zone.into(), dur: "PT36H".into(), sub: false, reject: false })),
+        ("out-of-range-duration", h(Call::ZdtAdd { t: t0, zone: base_zone.into(), dur: "P300000Y".into(), sub: false, reject: false })),
+        ("malformed-zoned-string", h(Call::ZdtFromStr { s: format!("2020-13-45T99:00[{base_zone}]"), dis: 0, off: 0, then: Acc::Year })),
+        ("malformed-relative-to", h(Call::DurRound { dur: "P1D".into(), rel: "not a date".into(), largest: None, smallest: Some(4) })),
+        ("offset-mismatch-rejected", h(Call::ZdtFromStr { s: format!("2020-06-01T12:00:00+13:37[{base_zone}]"), dis: 0, off: 0, then: Acc::Hour })),
+        ("provider-method-not-implemented", h(Call::ZdtGet { t: t0, zone: base_zone.into(), acc: Acc::TransitionNext })),
+        ("display-on-unknown-zone", h(Call::ZdtGet { t: t0, zone: "No/Such_Zone".into(), acc: Acc::Display })),
+        ("wall-time-in-24h-gap", h(Call::ZdtFromStr { s: "2011-12-30T12:00:00[Pacific/Apia]".into(), dis: 0, off: 0, then: Acc::Hour })),
+        ("injected-panic", h(Call::InjectPanic)),
+        ("injected-panic-second-thread", HStep { call: Call::InjectPanic, thr: true }),
+    ]
+}
+
+fn build_histories(seed: u64, pool: &[String], sets: usize, pair_sets: usize) -> (Vec<HistoryCase>, Value) {
+    let mut out = vec![];
+    let mut kinds_doc = serde_json::Map::new();
+    for set in 0..sets.max(pair_sets) {
+        // three zones per set; bases mix "same zone as before the fault" and "new zone after it"
+        let pal: Vec<String> = (0..3).map(|k| pool[(hash64(format!("{seed}|pal|{set}|{k}").as_bytes()) % pool.len() as u64) as usize].clone()).collect();
+        let base_zone = pal[0].clone();
+        let good = call_strategy(pal.clone(), true);
+        let kinds = fault_kinds(&base_zone);
+        if set == 0 {
+            for (label, st) in &kinds {
+                kinds_doc.insert(label.to_string(), json!({"call": st.call, "second_thread": st.thr, "alone": exec_isolated(&st.call)}));
+            }
+        }
+        if set < sets {
+            for len in 1..=3usize {
+                let base: Vec<Call> = sample_strategy(&good, hash64(format!("{seed}|base|{set}|{len}").as_bytes()), len);
+                for (_, k) in &kinds {
+                    for pos in 0..=len {
+                        // calls after the fault alternate between the main thread and a second thread
+                        let mut steps: Vec<HStep> = base.iter().enumerate().map(|(i, c)| HStep { call: c.clone(), thr: i >= pos && (set + len + pos) % 2 == 1 && i % 2 == 0 }).collect();
+                        steps.insert(pos, k.clone());
+                        out.push(HistoryCase { steps });
+                    }
+                }
+            }
+        }
+        if set < pair_sets {
+            // two failing calls: fault, call, fault, call (every ordered pair of kinds)
+            let base: Vec<Call> = sample_strategy(&good, hash64(format!("{seed}|pairbase|{set}").as_bytes()), 2);
+            for (_, k1) in &kinds {
+                for (_, k2) in &kinds {
+                    out.push(HistoryCase {
+                        steps: vec![k1.clone(), HStep { call: base[0].clone(), thr: false }, k2.clone(), HStep { call: base[1].clone(), thr: false }],
+                    });
+                }
+            }
+        }
+    }
+    (out, Value::Object(kinds_doc))
+}
+
+// ------------------------------------------------------------------------------------------------
+
+pub fn run(ctx: &mut Ctx) {
+    child_main_if_requested();
+    ctx.level = "fault_enumeration";
+    let pool = zones_on_disk();
+    if pool.len() < 20 {
+        println!("INCONCLUSIVE property=C20 only {} of the {} pool zones exist under /usr/share/zoneinfo", pool.len(), ZONES.len());
+        std::process::exit(2);
+    }
+    ctx.rule = "program (a): palette of 2-6 real IANA zones out of 52; N in {2,4,8,16} threads x calls (a total of 100-200 calls is split over the threads, each thread list has 1-100 generated calls, so 2-thread programs can be shorter; ZonedDateTime from_str/accessors/add/subtract/until/since/with_plain_time/start_of_day/hours_in_day/to_plain_*/to_ixdtf_string/Display, Duration round/total/compare with RelativeTo::try_from_str, Instant::to_ixdtf_string, PlainDateTime::to_zoned_date_time), ~12% of zone references unknown / mis-cased / truncated / fixed-offset, malformed strings and out-of-range values mixed in; optional sequential warm-up; in 2/3 of the programs every thread starts with a call on the same cold zone. Each program runs in fresh child processes: single-threaded in generated global orders (random interleaving picks, rotations), then with one OS thread per list behind a barrier; every result must equal the call alone through *_with_provider against a fresh FsTzdbProvider (errors by kind, values exactly), and no result may be the lock error. non-trivial = >= 2 threads reference the same real zone that the warm-up did not touch. fault (b): histories = 1-3 generated succeeding calls with one failing call of each of 15 kinds inserted at every position (calls after it alternately on a second thread), plus every ordered pair of kinds as fault,call,fault,call; each in a fresh child process; non-trivial = a failing call is followed by a call that succeeds alone.".into();
+    ctx.assumptions = vec![
+        "oracle = the same call alone: core *_with_provider API against a fresh FsTzdbProvider, computed in the parent process which never uses TZ_PROVIDER".into(),
+        "ZonedDateTime::microsecond()/nanosecond() are not used (mis-wired wrappers are C19's subject); Now::* is not used (feature sys, clock)".into(),
+        "calls whose isolated run panics (defects of C03/C13) are not executed inside concurrent programs (they would poison the lock as a side effect); the fault histories execute them as faults".into(),
+        format!("liveness is observed as a bounded wait: worker watchdog {} s (TVERIF_C20_TIMEOUT_S); a hang that repeats in the same single-threaded schedule is a violation, any other timeout is exit 2", timeout_s()),
+    ];
+    ctx.note("defect model KF-C20-poison: a history is excused only if every differing result comes after a step that panicked while the lock was held (injected, or a call whose isolated run panics) and equals exactly what poisoned wrappers produce for that call (computed by running the call against an Api whose every provider-backed method returns the lock error; Display: its expect panic carrying the lock error); any other difference is reported under C20/fault/result-differs or C20/fault/lock-error");
+    ctx.note("warm cache is covered by the sequential warm-up inside the same worker process (not by batching several programs per worker): every program and every history has its own process, so cold state is real for each");
+    ctx.note("after a failing program each lane evaluates at most SHRINK_BUDGET further programs (quick 300) so that shrinking stays bounded (every evaluation spawns 3-4 processes); after a confirmed deterministic hang nothing further is executed");
+    let tier = ctx.tier;
+    SHRINK_BUDGET.store(tier.pick(300, 3000), AO::SeqCst);
+
+    // ---- (b) fault histories: enumeration
+    let (hist, kinds_doc) = build_histories(ctx.sub_seed("fault", 0), &pool, tier.pick(2, 24) as usize, tier.pick(1, 12) as usize);
+    ctx.extra.insert("fault_kinds".into(), kinds_doc);
+    ctx.extra.insert("fault_histories".into(), json!(hist.len()));
+    ctx.run_enum(&FaultSub, hist.len() as u64, &|i| hist[i as usize].clone(), false);
+
+    // ---- (a) concurrent programs
+    let n_orders = tier.pick(2, 3) as usize;
+    let pool2 = pool.clone();
+    let strat = move || program_strategy(pool2.clone(), n_orders, 100, 200);
+    ctx.run_prop(&ProgramSub, &strat, tier.pick(480, 20000));
+
+    ctx.extra.insert("child_processes".into(), json!(CHILDREN.load(AO::Relaxed)));
+    ctx.extra.insert("zones_in_pool".into(), json!(pool.len()));
+    ctx.extra.insert("program_calls".into(), json!({"total": PROGRAM_CALLS.load(AO::Relaxed), "not_run_because_they_panic_alone": PROGRAM_CALLS_NOT_RUN.load(AO::Relaxed)}));
+    remove_job_dir();
+
+    // ---- generator floors (more cases do not fix a starved generator)
+    if ctx.violations.is_empty() {
+        let need = [
+            ("cold-zone-shared-by>=2-threads", 50u64),
+            ("same-cold-zone-is-first-call-of>=2-threads", 50),
+            ("has-warm-up", 30),
+            ("has-failing-call", 50),
+            ("success-expected-after-failing-call", 100),
+            ("fault:injected-panic-holding-lock", 10),
+            ("fault:injected-panic-holding-lock(second-thread)", 10),
+            ("fault:RangeError", 10),
+            ("fault:GenericError", 10),
+        ];
+        for (class, floor) in need {
+            let n = ctx.stats.classes.get(class).copied().unwrap_or(0);
+            if n < floor {
+                println!("INCONCLUSIVE property=C20 generator starved: class {class:?} has {n} cases, floor {floor}");
+                std::process::exit(2);
+            }
+        }
+    }
+}
+
+pub fn replay(ctx: &mut Ctx, sub: &str, case: &Value) -> bool {
+    child_main_if_requested();
+    let known = match sub {
+        "program" => ctx.replay_case(&ProgramSub, case),
+        "fault" => ctx.replay_case(&FaultSub, case),
+        _ => false,
+    };
+    remove_job_dir();
+    known
+}
+
